@@ -72,8 +72,8 @@ def run(tier):
         states += tr["distinct"]
         trans += tr["states"]
         for i, ev in bad:
-            if ev.get("_reason", "").startswith("flow-"):
-                continue        # flow versions along the history are C03's claim (judged there)
+            if ev.get("_reason", "").startswith("flow-") or ev.get("_reason") == "git-output-not-wellformed":
+                continue        # flow versions along the history are C03's claim, output well-formedness C01's
             tbad += 1
             # the operations of this session up to the rejected observation
             j = i - 1
